@@ -205,6 +205,22 @@ def anchored(parts):
     return a and z
 
 
+def ungrouped_regex_parts(parts):
+    """Indices of the variable parts of an anchored pattern that may hold a raw regular expression and are not enclosed in a
+    group by the literals around them."""
+    import re as _re
+    out = []
+    for i, p in enumerate(parts):
+        if p[0] != 'var' or p[1].startswith('re.escape('):
+            continue
+        before = parts[i - 1][1] if i > 0 and parts[i - 1][0] == 'lit' else ''
+        after = parts[i + 1][1] if i + 1 < len(parts) and parts[i + 1][0] == 'lit' else ''
+        if _re.search(r'\((\?:|\?P<\w+>)?$', before) and after.startswith(')'):
+            continue
+        out.append(i)
+    return out
+
+
 def _pattern_uses(ctx, fi, name_holder):
     """Method names called on a compiled pattern bound to `name_holder` (plain or self.x) anywhere in the module/class,
     following one level of argument passing to local functions."""
@@ -276,6 +292,16 @@ def r9_anchored(ctx, modules, rule='R9', floor=1, name_test_only=True):
                      % ', '.join([u(a) for a in c.args[1:]] + [u(k.value) for k in c.keywords]))
             continue
         if anchored(parts):
+            # ^ and $ bind tighter than |: a user pattern that is itself an alternation escapes both anchors ('^a|b$' is '^a' or
+            # 'b$') unless it is enclosed in a group (or the test is fullmatch); re.escape()d names contain no bare |
+            loose = ungrouped_regex_parts(parts)
+            if loose:
+                run.fail(rule, where(ctx.repo, c), fi.qualname, 'anchors around an ungrouped pattern: ' + ''.join(
+                    p[1] if p[0] == 'lit' else '<%s>' % p[1] for p in parts),
+                    'the name pattern is anchored by putting ^ and $ around the user\'s regular expression without grouping it: for an '
+                    'alternation such as a|b the anchors apply to the outer alternatives only (^a | b$), so with match() every name '
+                    'that merely starts with a is accepted - "fully matches" does not hold')
+                continue
             run.ok(rule, where(ctx.repo, c), u(c), 'anchored: ' + ''.join(p[1] if p[0] == 'lit' else '<%s>' % p[1]
                                                                         for p in parts))
             continue
